@@ -17,6 +17,20 @@ import (
 
 var errRead = errors.New("verif: scripted read error")
 
+// readErrFor picks the flavour of the scripted read error from the stream itself (so a case line replays the same):
+// the plain sentinel, or an error that wraps it *and* io.EOF — a read error all the same ("a read error is reported
+// as itself"), whatever else is in its chain
+func readErrFor(chunks [][]byte) error {
+	n := 0
+	for _, c := range chunks {
+		n += len(c)
+	}
+	if n%3 == 1 {
+		return fmt.Errorf("%w (the peer went away: %w)", errRead, io.EOF)
+	}
+	return errRead
+}
+
 // scriptedReader returns the given chunks (cut to the destination size), then io.EOF or
 // errRead, optionally together with the last bytes.
 type scriptedReader struct {
@@ -92,7 +106,7 @@ func runParse(args []string) string {
 	conn := args[0] == "1"
 	rd := &scriptedReader{chunks: unhxList(args[6]), endErr: io.EOF, errWithLast: args[2] == "1"}
 	if args[1] == "1" {
-		rd.endErr = errRead
+		rd.endErr = readErrFor(rd.chunks)
 	}
 	// drop empty chunks, as the model does
 	var cs [][]byte
@@ -115,7 +129,8 @@ func runParse(args []string) string {
 		}
 		errOut := "nil"
 		n := 0
-		sse.Read(rd, rc)(func(e sse.Event, err error) bool {
+		seq := sse.Read(rd, rc)
+		seq(func(e sse.Event, err error) bool {
 			if err != nil {
 				errOut = errClass(err)
 				if e != (sse.Event{}) {
@@ -130,7 +145,11 @@ func runParse(args []string) string {
 			n++
 			return n != stop
 		})
-		return fmt.Sprintf("%s | %s | %d | -", showEvents(events), errOut, rd.pulled)
+		pulled := rd.pulled
+		// the returned sequence may be ranged over again (Go iterators are re-entrant by convention): whatever a
+		// second pass finds in the reader, it must not panic (a panic is caught by the case runner)
+		seq(func(sse.Event, error) bool { return true })
+		return fmt.Sprintf("%s | %s | %d | -", showEvents(events), errOut, pulled)
 	}
 	ctx, cancel := context.WithCancel(context.Background())
 	defer cancel()
